@@ -254,7 +254,25 @@ def _hist_request(order, procs_tokens):
     return f"hist {','.join(order) if order else '-'} {fl} {_hex(s0)} {_hex(s1)} | " + " | ".join(procs_tokens)
 
 
-def _judge(res, desc, rec, ver, variant):
+def _crash_class(ops):
+    """Where, with respect to func_code.py, the workload was killed (from the calls it had completed): was the old
+    func_code.py unlinked, was a new one created (written or not), are result files of entry directories still being
+    removed. This identifies the crash point CLASS of a failure, so that a known finding only matches its own history."""
+    unlinked = any(o.startswith("unlink ") and o.split(" ")[1].endswith("/func_code.py") and o.endswith(" ok") for o in ops)
+    created = any(o.startswith("creat ") and o.split(" ")[1].endswith("/func_code.py") and o.endswith(" ok") for o in ops)
+    written = any(o.startswith("write ") and o.split(" ")[1].endswith("/func_code.py") for o in ops)
+    k_unlink = next((i for i, o in enumerate(ops) if o.startswith("unlink ") and o.split(" ")[1].endswith("/func_code.py")), None)
+    k_creat = next((i for i, o in enumerate(ops) if o.startswith("creat ") and o.split(" ")[1].endswith("/func_code.py")), None)
+    if unlinked and not created:
+        return "func_code-unlinked,new-code-not-yet-created"      # inside the removal of the function directory
+    if created and (k_unlink is None or k_creat < k_unlink):
+        return "func_code-rewritten-in-place-before-any-removal" + (",written" if written else ",empty")
+    if unlinked and created:
+        return "func_code-unlinked,new-code-created" + (",written" if written else ",empty")
+    return "func_code-untouched"
+
+
+def _judge(res, desc, rec, ver, variant, crash_class="?"):
     """Oracle on one recovering process (no model): returns f(x) of the live source, does not raise."""
     r = rec["res"]
     a = rec["p"]["a"]
@@ -275,19 +293,40 @@ def _judge(res, desc, rec, ver, variant):
         res.fail(sig, desc, dict(arg=a, variant=variant, outcome=oc))
     elif oc[1] != want:
         stale = oc[1] == fstrace.expected(SRC[1 - ver], _act(a))
-        res.fail("stale-value:old-version-entry-served-after-crash-in-source-change-clear" if stale else "wrong-value",
-                 desc, dict(arg=a, variant=variant, got=oc[1], want=want))
+        # a stale value is classified by the crash point class: F36 is exactly "killed after func_code.py was unlinked and
+        # before a new one was created, old entries still there"; any other history is a different failure
+        res.fail(f"stale-value-after-crash[{crash_class}]" if stale else "wrong-value",
+                 dict(desc, crash_class=crash_class), dict(arg=a, variant=variant, got=oc[1], want=want))
 
 
-def _torn_lengths(total, have, rng_vals, thorough):
-    """Boundary-biased lengths in [have, total) (strict prefixes of the complete content)."""
+def _mid_char_offsets(full):
+    """Lengths that cut `full` inside a multi-byte UTF-8 character, grouped by the character's size (2, 3, 4 bytes)."""
+    by_size = {}
+    i = 0
+    while i < len(full):
+        b = full[i]
+        size = 1 if b < 0x80 else 2 if b < 0xE0 else 3 if b < 0xF0 else 4
+        if size > 1:
+            by_size.setdefault(size, []).append([i + k for k in range(1, size)])
+        i += size
+    return by_size
+
+
+def _torn_lengths(full, have, rng_vals, thorough):
+    """Boundary-biased lengths in [have, total) (strict prefixes of the complete content); for text, every byte offset
+    inside a 2-, 3- and 4-byte character (quick: of one character per size, thorough: of every character)."""
+    total = len(full)
     cand = {have, have + 1, 1, 5, 12, 13, 14, 15, 16, 17, total - 1, total - 2, total // 2}
     cand |= set(rng_vals)
+    mid = set()
+    for size, chars in _mid_char_offsets(full).items():
+        for offs in (chars if thorough else chars[:1]):
+            mid |= set(offs)
     cand = sorted(n for n in cand if have <= n < total)
     if not thorough and len(cand) > 6:
         keep = {cand[0], cand[-1]} | {n for n in cand if n in (13, 14, 15, 16)}
         cand = sorted(keep)
-    return cand
+    return sorted(set(cand) | {n for n in mid if have <= n < total})
 
 
 def _copy(src, dst):
@@ -358,7 +397,7 @@ def _kill_case(a):
                 have = os.path.getsize(torn_path)
                 out["torn_file"] = cp
                 is_code = cp.endswith("func_code.py") or cp.endswith(".gitignore")
-                lens = [n for n in _torn_lengths(len(full), have, rng_vals, tier_thorough) if n > have]
+                lens = [n for n in _torn_lengths(full, have, rng_vals, tier_thorough) if n > have]
                 if not tier_thorough and not cp.endswith("func_code.py"):
                     lens = lens[:1]  # a torn temporary / .gitignore is never read back: one length is a sample
                 torn_variants += [("torn", n) for n in lens]
@@ -578,7 +617,7 @@ def _synth_case(a):
         except OSError as e:
             shutil.rmtree(kdir, ignore_errors=True)
             return dict(workload=wname, infra=f"replay of {o} failed: {e}")
-    out = dict(workload=wname, order=order, kill=j, cases=[])
+    out = dict(workload=wname, order=order, kill=j, prefix=list(prefix), cases=[])
     state = os.path.join(kdir, "state")
     shutil.copytree(cache, state, symlinks=True)
     for variant in variants:
@@ -687,8 +726,11 @@ def _explore(ctx, budget_scale=1, only=None):
             res.count("crash:" + wname)
             res.count("torn" if c["torn"] else "untorn")
             res.sample(desc)
+            kops = list(c["killed_ops"])
+            if c["torn"] is not None and ko.get("torn_file") and kops[-1:] != [f"write {ko['torn_file']}"]:
+                kops.append(f"write {ko['torn_file']}")
             for rec in c["recs"]:
-                _judge(res, desc, rec, w["ver"], c["variant"])
+                _judge(res, desc, rec, w["ver"], c["variant"], _crash_class(kops))
             all_ops = p["setup_ops"] + [c["killed_ops"]] + [r["ops"] for r in c["recs"]]
             order = _order_from(_listings(all_ops + [p["clean_ops"]]))
             if order is None:
@@ -717,7 +759,7 @@ def _explore(ctx, budget_scale=1, only=None):
             res.nontrivial.add((wname, so["kill"], tuple(so["order"]), c["variant"]))
             res.count("synthetic-crash:" + wname)
             for rec in c["recs"]:
-                _judge(res, desc, rec, w["ver"], c["variant"])
+                _judge(res, desc, rec, w["ver"], c["variant"], _crash_class(so.get("prefix", [])))
     if reqs:
         for (stream, desc, real), rep in zip(pend, ctx.driver().run(reqs)):
             _compare_logs(res, stream, desc, real, rep)
